@@ -264,4 +264,30 @@ def Brk.new (id : Nat) (r : Rule) (now : Nat) : Brk (Arr Cnt) :=
 def Brk.newAbs (id : Nat) (r : Rule) : Brk (List (Nat × Cnt)) :=
   { id := id, rule := r, w := [] }
 
+/-! ## the legal transition graph (what the listener log is checked against) -/
+
+def applyTr : St → Tr → Option St
+  | .closed, .toOpen .closed _ => some .opened
+  | .halfOpen, .toOpen .halfOpen _ => some .opened
+  | .opened, .toHalfOpen => some .halfOpen
+  | .halfOpen, .toClosed => some .closed
+  | _, _ => none
+
+/-- follow a list of callbacks of one breaker from state `s`; `none` = some callback is not an edge -/
+def walk : St → List Tr → Option St
+  | s, [] => some s
+  | s, t :: ts => match applyTr s t with
+    | some s' => walk s' ts
+    | none => none
+
+def upd (m : Nat → St) (k : Nat) (s : St) : Nat → St := fun j => if j = k then s else m j
+
+/-- replay a whole listener log on a map `breaker id ↦ state`; `none` = some callback is not a legal edge
+    from the state its breaker had at that point -/
+def replay (m : Nat → St) : List Ev → Option (Nat → St)
+  | [] => some m
+  | e :: es => match applyTr (m e.id) e.tr with
+    | some s' => replay (upd m e.id s') es
+    | none => none
+
 end Sentinel.CB
